@@ -115,7 +115,10 @@ check("C02", "model_checking",
       "property at call level (send = interval with a linearisation point) and TLC shows its trace rules necessary; "
       "free-running scenarios with 1..8 senders (threads, clones, spawned processes; up to 24 single-/multi-packet "
       "messages each) and six receiver behaviours (eager, delayed, try_recv, try_recv_timeout, mixed, receiver set) are "
-      "recorded and every delivery/disconnection validated by TLC against FifoTrace.tla.",
+      "recorded and every delivery/disconnection validated by TLC against FifoTrace.tla; the system calls of the same runs "
+      "are validated against ProtoTrace.tla (dedicated socket pair per fragmented message, follow-ups only on it, the "
+      "sender's copy of its receiving end closed first, the receiver reading the rest only from the descriptor that came "
+      "with the first packet).",
       "Schedules executed on real code are a sample (quick ~700, thorough several thousand) of the exhaustively checked "
       "model; send buffer 4096 via the override hook; a schedule the code cannot follow (different system-call sequence) is "
       "counted as unmatched and judged only by the property-level oracle.",
